@@ -1561,21 +1561,27 @@ func (c *Compiler) compileRepeatMin(sub *syntax.Regexp, minCount int, nonGreedy 
 		return c.compileStar(sub, nonGreedy)
 	}
 
-	// Concatenate minCount copies + star
+	// a{m,} = m-1 copies followed by a+ (what regexp/syntax's Simplify produces). It is not
+	// the same as m copies followed by a*: when a can match the empty string the two give
+	// the threads of the last iteration different priorities, e.g.
+	// (?:(y)|x|[0-9a-f]*|(-)){2,} on "xy-a" must prefer consuming "-a" over stopping at 2.
 	var subs []*syntax.Regexp
-	for i := 0; i < minCount; i++ {
+	for i := 0; i < minCount-1; i++ {
 		subs = append(subs, sub)
 	}
-	// Create synthetic star with correct NonGreedy flag
-	starFlags := syntax.Flags(0)
+	// Create synthetic plus with correct NonGreedy flag
+	plusFlags := syntax.Flags(0)
 	if nonGreedy {
-		starFlags |= syntax.NonGreedy
+		plusFlags |= syntax.NonGreedy
 	}
 	subs = append(subs, &syntax.Regexp{
-		Op:    syntax.OpStar,
-		Flags: starFlags,
+		Op:    syntax.OpPlus,
+		Flags: plusFlags,
 		Sub:   []*syntax.Regexp{sub},
 	})
+	if len(subs) == 1 {
+		return c.compileRegexp(subs[0])
+	}
 	return c.compileConcat(subs)
 }
 
@@ -1587,24 +1593,56 @@ func (c *Compiler) compileRepeatRange(sub *syntax.Regexp, minCount, maxCount int
 		}
 	}
 
-	// Concatenate minCount copies + (maxCount-minCount) optional copies
-	var subs []*syntax.Regexp
+	// a{m,n} = m copies followed by nested optional copies (a(a(a)?)?)?, as regexp/syntax's
+	// Simplify produces them. A flat a?a?a? lets a thread skip one optional copy and take
+	// the next one, which changes thread priorities when a can match the empty string.
+	// The nesting is built iteratively (every optional copy's skip edge goes straight to the
+	// end of the whole repeat) so that it does not add to the recursion depth.
+	connect := func(from, to StateID) error {
+		if err := c.builder.Patch(from, to); err != nil {
+			epsilon := c.builder.AddEpsilon(to)
+			return c.builder.Patch(from, epsilon)
+		}
+		return nil
+	}
+	start, end = InvalidState, InvalidState
 	for i := 0; i < minCount; i++ {
-		subs = append(subs, sub)
+		s, e, err := c.compileRegexp(sub)
+		if err != nil {
+			return InvalidState, InvalidState, err
+		}
+		if start == InvalidState {
+			start, end = s, e
+			continue
+		}
+		if err := connect(end, s); err != nil {
+			return InvalidState, InvalidState, err
+		}
+		end = e
 	}
-	// Create synthetic quest nodes with correct NonGreedy flag
-	questFlags := syntax.Flags(0)
-	if nonGreedy {
-		questFlags |= syntax.NonGreedy
-	}
+	final := c.builder.AddEpsilon(InvalidState)
 	for i := 0; i < maxCount-minCount; i++ {
-		subs = append(subs, &syntax.Regexp{
-			Op:    syntax.OpQuest,
-			Flags: questFlags,
-			Sub:   []*syntax.Regexp{sub},
-		})
+		s, e, err := c.compileRegexp(sub)
+		if err != nil {
+			return InvalidState, InvalidState, err
+		}
+		var split StateID
+		if nonGreedy {
+			split = c.builder.AddQuantifierSplit(final, s)
+		} else {
+			split = c.builder.AddQuantifierSplit(s, final)
+		}
+		if start == InvalidState {
+			start = split
+		} else if err := connect(end, split); err != nil {
+			return InvalidState, InvalidState, err
+		}
+		end = e
 	}
-	return c.compileConcat(subs)
+	if err := connect(end, final); err != nil {
+		return InvalidState, InvalidState, err
+	}
+	return start, final, nil
 }
 
 // compileEmptyMatch compiles an epsilon transition (matches without consuming input)
